@@ -153,6 +153,10 @@ class AnnotModel:
         def sv(_k: str, **attrs: Any) -> SV:
             v = SV(_k)
             v._attrs.update(attrs)
+            if _k in VALUE_CLASSES:
+                # the routes never ask whether an annotation accepts something; the signature builders do, for defaults
+                v._attrs["can_assign"] = lambda other, ctx=None: {}
+                v._attrs["is_assignable"] = lambda other, ctx=None: True
             if _k == "SequenceValue":
                 v._attrs["get_member_sequence"] = lambda v=v: None if any(m for m, _ in v._attrs["members"]) else [x for _, x in v._attrs["members"]]
             if _k == "UnpackedValue":
